@@ -261,7 +261,9 @@ func zeroOfSort(so string) string {
 }
 
 // prelude emits the fixed sorts and all struct datatypes registered so far.
-func (s *Sorts) prelude() string {
+// prelude declares the fixed sorts and those struct datatypes that the script body mentions (directly or through
+// another declared datatype): a script does not depend on which other functions were translated in the same run.
+func (s *Sorts) prelude(body string) string {
 	var b strings.Builder
 	b.WriteString("(declare-sort Ref 0)\n(declare-const nil Ref)\n(declare-sort Opq 0)\n(declare-const opqzero Opq)\n")
 	b.WriteString("(declare-datatypes ((Slice 0)) (((mk_slice (sbase Ref) (soff Int) (slen Int) (scap Int)))))\n")
@@ -304,7 +306,9 @@ func (s *Sorts) prelude() string {
 	}
 	sort.Strings(names)
 	for _, n := range names {
-		emit(n)
+		if strings.Contains(body, n) {
+			emit(n)
+		}
 	}
 	return b.String()
 }
